@@ -307,7 +307,7 @@ def make_run_tools():
                 cb=name, slot=step.status.slot, level=level_number, level_index=L.level_index, time=L.time, dt=L.dt,
                 iter=step.status.iter, sweep=L.status.sweep, restart=bool(step.status.get('restart')),
                 nr=step.status.get('restarts_in_a_row'), rank=L.sweep.rank, est=bool(L.status.get('error_embedded_estimate')),
-                calls=dict(getattr(P, 'c14_calls', {})), nlev=len(step.levels)))
+                calls=dict(getattr(P, 'c14_calls', {})), nlev=len(step.levels), last=bool(step.status.last)))
 
         def pre_step(self, step, level_number):
             super().pre_step(step, level_number)
@@ -324,6 +324,10 @@ def make_run_tools():
         def post_iteration(self, step, level_number):
             super().post_iteration(step, level_number)
             self._ev('post_iteration', step, level_number)
+
+        def post_run(self, step, level_number):
+            super().post_run(step, level_number)
+            self._ev('post_run', step, level_number)
 
     class ScriptedRestarts(ConvergenceController):
         """Requests a restart of the step in slot s of block b for every (b, s) in params['script'] (blocks are
@@ -384,7 +388,7 @@ def run_config(cfg):
     from pySDC.implementations.hooks.log_restarts import LogRestarts
     from pySDC.implementations.hooks.log_step_size import LogStepSize
     from pySDC.implementations.hooks.log_embedded_error_estimate import LogEmbeddedErrorEstimate
-    from pySDC.implementations.hooks.log_errors import LogGlobalErrorPostStep, LogLocalErrorPostStep
+    from pySDC.implementations.hooks.log_errors import LogGlobalErrorPostStep, LogLocalErrorPostStep, LogGlobalErrorPostRun
     from pySDC.implementations.convergence_controller_classes.adaptivity import Adaptivity
     Recorder, ScriptedRestarts = make_run_tools()
     Recorder.events = []
@@ -409,7 +413,7 @@ def run_config(cfg):
     if cfg.get('script'):
         cc[ScriptedRestarts] = {'script': [tuple(x) for x in cfg['script']]}
     desc['convergence_controllers'] = cc
-    hooks = [Recorder, LogWork, LogSolution, LogSDCIterations, LogGlobalErrorPostStep]
+    hooks = [Recorder, LogWork, LogSolution, LogSDCIterations, LogGlobalErrorPostStep, LogGlobalErrorPostRun]
     if not cfg.get('lean_hooks'):
         hooks += [LogRestarts, LogStepSize]          # otherwise left to the convergence controllers that add them
     if cfg['problem'] == 'test':
@@ -766,6 +770,52 @@ def check_run(run, stats_helper, Entry):
                 add('recomputed_filter_drops_accepted' if missing else 'recomputed_filter_keeps_superseded',
                     'filter_stats(type=%r, recomputed=False): %d per-iteration records missing, %d extra' % (ty, len(missing), len(extra)),
                     cause=cause, type=ty, hook='DefaultHooks', missing=missing[:4], extra=extra[:4])
+
+    # O10: records written after the run.  (a) CPUTimings.post_run: one 'timing_run' record per step object, keyed by the
+    # state of that step as the recorder saw it in post_run; (b) LogGlobalErrorPostRun: exactly one 'e_global_post_run' and one
+    # 'e_global_rel_post_run' record, keyed by the final step: its slot, END time, level, iteration, sweep and the restart count it
+    # was accepted with (not the counter that prepare_next_block has reset in the meantime); value = error of that step
+    post_run = [ev for ev in run['events'] if ev['cb'] == 'post_run']
+    if 'timing_run' in raw_by_type and post_run:
+        want = {Entry(process=ev['slot'], process_sweeper=ev['rank'], time=ev['time'], level=ev['level_index'], iter=ev['iter'], sweep=ev['sweep'],
+                      type='timing_run', num_restarts=ev['nr']) for ev in post_run}
+        got = {k for k, _ in raw_by_type['timing_run']}
+        if want != got:
+            add('post_run_key', "'timing_run' keys are not the states of the steps at post_run: missing %s, unexpected %s"
+                % ([str(k) for k in want - got][:2], [str(k) for k in got - want][:2]), hook='CPUTimings', type='timing_run')
+    if 'LogGlobalErrorPostRun' in (run.get('requested_hooks') or []) and atts:
+        af = atts[-1]
+        for ty in ('e_global_post_run', 'e_global_rel_post_run'):
+            recs = raw_by_type.get(ty, [])
+            want = Entry(process=af['slot'], process_sweeper=af['rank'], time=af['tend'], level=af['level_index'], iter=af['iter'], sweep=af['sweep'],
+                         type=ty, num_restarts=af['nr'])
+            keys_ = [k for k, _ in recs]
+            near = []
+            if want not in keys_:
+                near = [k for k in keys_ if all(getattr(k, f) == getattr(want, f) for f in FIELDS if f != 'num_restarts')]
+                if near:
+                    add('key_num_restarts_stale', '%s record of the final step (ends t=%r, slot %d) is keyed with num_restarts=%s, the step was accepted '
+                        'with restart count %s' % (ty, af['tend'], af['slot'], [k.num_restarts for k in near], af['nr']),
+                        hook='LogGlobalErrorPostRun', type=ty, step_time=af['time'], slot=af['slot'], final_step_restart_count=af['nr'])
+                else:
+                    add('record_missing', 'no %s record under the key of the final step %s; present: %s' % (ty, want, [str(k) for k in keys_][:3]),
+                        hook='LogGlobalErrorPostRun', type=ty)
+            extra = [k for k in keys_ if k != want and k not in near]
+            if extra:
+                final_slots = {a['slot'] for a in atts if a['block'] == af['block']}
+                stale = all(any(ev['slot'] == k.process and ev['last'] for ev in post_run) and k.process not in final_slots for k in extra)
+                vals = dict(recs)
+                add('post_run_record_extra', '%d %s record(s) besides the one of the final step (slot %d, ends t=%r): %s with value(s) %s (final step: %s); '
+                    '(slot, status.last) seen at post_run: %s; steps of the final block: slots %s'
+                    % (len(extra), ty, af['slot'], af['tend'], [str(k) for k in extra][:2], [vals[k] for k in extra][:2], vals.get(want),
+                       [(ev['slot'], ev['last']) for ev in post_run], sorted(final_slots)),
+                    cause='stale_status_last' if stale else 'unknown', hook='LogGlobalErrorPostRun', type=ty)
+            if ty == 'e_global_post_run' and 'e_global_post_step' in raw_by_type:
+                ref = [v for k, v in raw_by_type['e_global_post_step'] if k.process == af['slot'] and k.time == af['tend'] and k.num_restarts == af['nr']]
+                bad = [v for k, v in recs if k == want and ref and not (abs(v - ref[-1]) == 0)]
+                if bad:
+                    add('value', 'e_global_post_run = %r but the error of the final step recorded at post_step is %r' % (bad[0], ref[-1]),
+                        hook='LogGlobalErrorPostRun', type=ty)
 
     # O8: merged stats = union of the hooks' dictionaries, nothing lost or overwritten across hooks
     merged = {}
